@@ -16,6 +16,8 @@ func calleeFunc(info *types.Info, call *ast.CallExpr) (*types.Func, bool) {
 
 // Graph wraps a go/cfg graph with dominator information and node lookup.
 type Graph struct {
+	// NonNilError, when set, tells whether a function always returns a non-nil error (an error constructor).
+	NonNilError func(*types.Func) bool
 	U    FuncUnit
 	Info *types.Info
 	CFG  *cfg.CFG
@@ -448,6 +450,9 @@ func (g *Graph) ReturnsUnderFact(from Loc, atom func(ast.Expr) Tri) (rets []Retu
 									case "fmt.Errorf", "errors.New":
 										cls = "fail"
 									}
+									if g.NonNilError != nil && g.NonNilError(fn) {
+										cls = "fail" // an in-repo error constructor (invalidMode(mode)) that never returns nil
+									}
 								}
 							}
 							if id, ok := ast.Unparen(r).(*ast.Ident); ok {
@@ -788,4 +793,43 @@ func (g *Graph) CountOnPathsCond(classify func(n ast.Node) (events int, use bool
 		}
 	}
 	return exits, badUses
+}
+
+// AlwaysReturnsFreshError: every return of the function yields, as its last result, a call of fmt.Errorf / errors.New.
+func AlwaysReturnsFreshError(info *types.Info, fd *ast.FuncDecl) bool {
+	if fd == nil || fd.Body == nil {
+		return false
+	}
+	n, ok := 0, true
+	ast.Inspect(fd.Body, func(m ast.Node) bool {
+		if _, isLit := m.(*ast.FuncLit); isLit {
+			return false
+		}
+		ret, isRet := m.(*ast.ReturnStmt)
+		if !isRet {
+			return true
+		}
+		n++
+		if len(ret.Results) == 0 {
+			ok = false
+			return true
+		}
+		call, isCall := ast.Unparen(ret.Results[len(ret.Results)-1]).(*ast.CallExpr)
+		if !isCall {
+			ok = false
+			return true
+		}
+		fn, isFn := calleeFunc(info, call)
+		if !isFn || fn.Pkg() == nil {
+			ok = false
+			return true
+		}
+		switch fn.Pkg().Path() + "." + fn.Name() {
+		case "fmt.Errorf", "errors.New":
+		default:
+			ok = false
+		}
+		return true
+	})
+	return ok && n > 0
 }
